@@ -21,8 +21,14 @@ func (e Exceeded) Error() string { return "vstep: step horizon exceeded" }
 func Hit() {
 	N++
 	if Limit != 0 && N > Limit {
-		Blown = true
-		panic(Exceeded{Limit})
+		// the first excess panics; later ones only every 2^16 steps: deferred calls that
+		// run while the first panic unwinds a deep stack must not each panic again (nested
+		// panics over 10^5 frames take minutes), yet code that recovers and carries on
+		// looping is still stopped
+		if !Blown || (N-Limit)&0xffff == 0 {
+			Blown = true
+			panic(Exceeded{Limit})
+		}
 	}
 }
 
